@@ -229,7 +229,7 @@ func report(rep *CheckReport, quiet bool) int {
 		fmt.Fprintf(os.Stderr, "ENGINE-ERROR: %s\n", m)
 	}
 	if !dryRun {
-		os.MkdirAll(filepath.Join(verifRoot, "replay", prop), 0o755)
+		os.MkdirAll(filepath.Join(outRoot(), "replay", prop), 0o755)
 	}
 	nObl, nDis := 0, 0
 	var knownHit []string
@@ -323,7 +323,7 @@ func report(rep *CheckReport, quiet bool) int {
 		fmt.Printf("property %s: %d obligations, %d discharged, %d violations, %d functions under contract, wall %.1fs\n",
 			prop, nObl, nDis, violations, len(rep.Functions), rep.Wall)
 	}
-	if !dryRun {
+	if !dryRun && scratchOut() == "" {
 		rep.KnownHit = knownHit
 		writeEvidence(rep, nObl, nDis, violations, samples)
 	}
@@ -359,11 +359,31 @@ func safeFile(s string) string {
 	return out
 }
 
+// scratchOut: a run against a scratch copy of the repository (GOWP_REPO set) never writes evidence
+// and keeps its replay files out of /verif - evidence describes /repo only.
+func scratchOut() string {
+	if repoRoot != "/repo" {
+		d := os.Getenv("GOWP_OUT")
+		if d == "" {
+			d = filepath.Join(os.TempDir(), "gowp-scratch")
+		}
+		return d
+	}
+	return ""
+}
+
+func outRoot() string {
+	if d := scratchOut(); d != "" {
+		return d
+	}
+	return verifRoot
+}
+
 func writeReplayFile(prop, name string, info map[string]any) string {
 	if dryRun {
 		return "(dry-run)"
 	}
-	dir := filepath.Join(verifRoot, "replay", prop)
+	dir := filepath.Join(outRoot(), "replay", prop)
 	os.MkdirAll(dir, 0o755)
 	path := filepath.Join(dir, safeFile(name)+".json")
 	info["property"] = prop
